@@ -5,7 +5,9 @@
 //! frame templates whose trusted-parser outcome is known by construction (ground truth, never derived from
 //! the reply).  Observation per command = classified reply; asynchronous frames (binary, `stream:` text)
 //! are not replies, but the "query done" notifications and the FileInfo counters seen before a reply are
-//! handed to the model as events / oracle input.  The oracle checks the property text directly on the
+//! handed to the model as events / oracle input.  For `fs` the oracle inputs are what the path names in the
+//! environment (`<scratch>/env`: value classes of files, times, links, archives), read by the harness itself
+//! right before the command is sent.  The oracle checks the property text directly on the
 //! session: one reply per command, ok:/err:/unknown notice, connection + process alive, no panic on
 //! stderr, and the open/close and stream-id bookkeeping implied by the replies.
 use adlt::utils::remote_types::{self, BinType};
@@ -93,11 +95,173 @@ fn write_zip(path: &Path, members: &[(&str, Vec<u8>)]) {
     z.finish().unwrap();
 }
 
+// ---------------------------------------------------------------- the environment commands refer to
+/// time family of the environment: (label, seconds relative to 1970-01-01T00:00:00Z, nanoseconds added to that)
+const ENV_TIMES: &[(&str, i64, u32)] = &[
+    ("m1h", -3600, 0),
+    ("m1s", -1, 0),
+    ("m1ms", -1, 999_000_000),
+    ("m1ns", -1, 999_999_999),
+    ("epoch", 0, 0),
+    ("p1ns", 0, 1),
+    ("p1ms", 0, 1_000_000),
+    ("m1d", -86_400, 0),
+    ("y1960", -315_619_200, 0),
+    ("min32", -2_147_483_648, 0),
+    ("y2038", 2_147_483_648, 0),
+    ("y2400", 13_569_465_600, 0),
+    ("max34", 15_032_385_535, 0),
+];
+fn sys_time(secs: i64, nanos: u32) -> std::time::SystemTime {
+    let e = std::time::SystemTime::UNIX_EPOCH;
+    if secs >= 0 {
+        e + Duration::new(secs as u64, nanos)
+    } else {
+        e - Duration::from_secs(secs.unsigned_abs()) + Duration::from_nanos(nanos as u64)
+    }
+}
+/// sets the modification time of a file or directory; false if the platform / file system refused
+fn set_mtime(path: &Path, t: std::time::SystemTime) -> bool {
+    std::fs::File::open(path).and_then(|f| f.set_modified(t)).is_ok()
+}
+/// signed nanoseconds relative to the epoch
+fn signed_ns(t: std::time::SystemTime) -> i128 {
+    match t.duration_since(std::time::SystemTime::UNIX_EPOCH) {
+        Ok(d) => d.as_nanos() as i128,
+        Err(e) => -(e.duration().as_nanos() as i128),
+    }
+}
+
+/// Value classes of what a path can name.  Everything lives in `<scratch>/env` and is never modified after its
+/// creation (the oracle inputs of an `fs` command are read from the environment right before the command is sent).
+/// Returns the base paths (absolute, as text) with a class label.
+fn create_env(dir: &Path, seed: u64) -> Vec<(String, &'static str)> {
+    use std::os::unix::ffi::OsStrExt;
+    let env = dir.join("env");
+    std::fs::create_dir_all(&env).unwrap();
+    let a = std::fs::read(dir.join("a.dlt")).unwrap();
+    let arch = std::fs::read(dir.join("arch.zip")).unwrap();
+    let mut bases: Vec<(String, &'static str)> = vec![];
+    let p = |n: &str| env.join(n);
+    let s = |n: &str| env.join(n).to_str().unwrap().to_string();
+    // ordinary, empty
+    std::fs::write(p("plain.txt"), b"hello\n").unwrap();
+    std::fs::write(p("empty.txt"), b"").unwrap();
+    bases.push((s("plain.txt"), "file"));
+    bases.push((s("empty.txt"), "file_empty"));
+    // DLT files (10 messages) whose modification time lies before / at / after the epoch
+    let mut times: Vec<(String, i64, u32)> = ENV_TIMES.iter().map(|(l, a, b)| (l.to_string(), *a, *b)).collect();
+    let mut rng = Rng::new(seed ^ 0x5eed_f11e);
+    for i in 0..6 {
+        // a family around them: magnitudes from nanoseconds to the limits of the file system, both signs
+        let mag_bits = rng.range(0, 30);
+        let secs = (rng.below(1 << mag_bits) + if i % 2 == 0 { 1 } else { 0 }) as i64;
+        let nanos = if rng.chance(1, 2) { 0 } else { rng.below(1_000_000_000) as u32 };
+        times.push((format!("r{}", i), if i % 2 == 0 { -secs } else { secs }, nanos));
+    }
+    for (label, secs, nanos) in &times {
+        let name = format!("t_{}.dlt", label);
+        std::fs::write(p(&name), &a).unwrap();
+        set_mtime(&p(&name), sys_time(*secs, *nanos));
+        bases.push((s(&name), if *secs < 0 { "file_mtime_before_epoch" } else if *secs == 0 && *nanos == 0 { "file_mtime_epoch" } else { "file_mtime_after_epoch" }));
+    }
+    // directories
+    std::fs::create_dir_all(p("olddir")).unwrap();
+    std::fs::write(p("olddir/in_old.txt"), b"x").unwrap();
+    set_mtime(&p("olddir"), sys_time(-86_400, 0));
+    bases.push((s("olddir"), "dir_mtime_before_epoch"));
+    std::fs::create_dir_all(p("many")).unwrap();
+    for i in 0..40 {
+        std::fs::write(p(&format!("many/f{:02}.txt", i)), b"x").unwrap();
+    }
+    for i in 0..5 {
+        std::fs::create_dir_all(p(&format!("many/d{}", i))).unwrap();
+    }
+    let _ = std::os::unix::fs::symlink("f00.txt", p("many/l0"));
+    let _ = std::os::unix::fs::symlink("nothing", p("many/l1"));
+    let _ = std::os::unix::fs::symlink("d0", p("many/l2"));
+    bases.push((s("many"), "dir_many"));
+    // symbolic links: to a file, to a DLT file, to a directory, dangling, loops, an old link
+    let _ = std::os::unix::fs::symlink("plain.txt", p("link_file"));
+    let _ = std::os::unix::fs::symlink("../a.dlt", p("link_a.dlt"));
+    let _ = std::os::unix::fs::symlink("olddir", p("link_dir"));
+    let _ = std::os::unix::fs::symlink("nothing", p("dangling"));
+    let _ = std::os::unix::fs::symlink("loop", p("loop"));
+    let _ = std::os::unix::fs::symlink("loop_b", p("loop_a"));
+    let _ = std::os::unix::fs::symlink("loop_a", p("loop_b"));
+    let _ = std::os::unix::fs::symlink("plain.txt", p("link_old"));
+    let _ = Command::new("touch").args(["-h", "-d", "1969-12-31 23:00:00 UTC"]).arg(p("link_old")).stderr(Stdio::null()).status();
+    for (n, c) in [("link_file", "symlink_file"), ("link_a.dlt", "symlink_file"), ("link_dir", "symlink_dir"), ("dangling", "symlink_dangling"), ("loop", "symlink_loop"), ("loop_a", "symlink_loop"), ("link_old", "symlink_mtime_before_epoch")] {
+        bases.push((s(n), c));
+    }
+    // neither file nor directory nor link
+    let _ = Command::new("mkfifo").arg(p("fifo")).arg(p("fifo.dlt")).arg(p("fifo.zip")).arg(p("fifo.zip.001")).stderr(Stdio::null()).status();
+    bases.push((s("fifo.dlt"), "special"));
+    bases.push((s("fifo.zip"), "archive"));
+    bases.push((s("fifo.zip.001"), "archive"));
+    let _ = std::os::unix::net::UnixListener::bind(p("sock"));
+    bases.push((s("fifo"), "special"));
+    bases.push((s("sock"), "special"));
+    // no permissions (a check running as root is not stopped by them)
+    std::fs::create_dir_all(p("noperm")).unwrap();
+    std::fs::write(p("noread.txt"), b"x").unwrap();
+    {
+        use std::os::unix::fs::PermissionsExt;
+        let _ = std::fs::set_permissions(p("noperm"), std::fs::Permissions::from_mode(0o000));
+        let _ = std::fs::set_permissions(p("noread.txt"), std::fs::Permissions::from_mode(0o000));
+    }
+    bases.push((s("noperm"), "dir_noperm"));
+    bases.push((s("noread.txt"), "file_noperm"));
+    // names: as long as a name may be, too long, with a NUL byte, non-ASCII, not UTF-8 (those only via their directory)
+    let long = format!("{}.dlt", "L".repeat(251));
+    std::fs::write(p(&long), &a).unwrap();
+    bases.push((s(&long), "name_long"));
+    bases.push((s(&"n".repeat(300)), "name_too_long"));
+    bases.push((format!("{}/{}", s("olddir"), "p/".repeat(2100)), "path_too_long"));
+    bases.push((format!("{}\0b", s("a")), "name_nul"));
+    std::fs::create_dir_all(p("nonutf8")).unwrap();
+    std::fs::write(env.join("nonutf8").join(std::ffi::OsStr::from_bytes(b"f\xff\xfe.dlt")), &a).unwrap();
+    let _ = std::fs::create_dir_all(env.join("nonutf8").join(std::ffi::OsStr::from_bytes(b"d\xc3\x28")));
+    std::fs::write(p("nonutf8/\u{fc}n\u{ef} \u{1f600}.txt"), b"x").unwrap();
+    bases.push((s("nonutf8"), "dir_nonutf8_names"));
+    bases.push((s("nonutf8/\u{fc}n\u{ef} \u{1f600}.txt"), "name_unicode"));
+    // below a file, missing, relative, odd texts
+    bases.push((format!("{}/x", s("plain.txt")), "below_file"));
+    bases.push((format!("{}/x", s("loop")), "below_loop"));
+    bases.push((format!("{}/x", s("dangling")), "below_dangling"));
+    bases.push((s("nothing"), "missing"));
+    bases.push((s("no/such/dir/f.dlt"), "missing"));
+    bases.push(("".to_string(), "text_empty"));
+    bases.push(("x".to_string(), "missing_relative"));
+    bases.push((".".to_string(), "dir_relative"));
+    // archives: valid, with an old time, upper case, behind a link, a single member "data", empty, 0 bytes, cut,
+    // garbage, a directory with an archive name, nested, multi volume
+    std::fs::write(p("old.zip"), &arch).unwrap();
+    set_mtime(&p("old.zip"), sys_time(-3600, 0));
+    std::fs::write(p("UPPER.ZIP"), &arch).unwrap();
+    let _ = std::os::unix::fs::symlink("../arch.zip", p("link.zip"));
+    write_zip(&p("data.zip"), &[("data", a.clone())]);
+    write_zip(&p("emptyarch.zip"), &[]);
+    std::fs::write(p("zero.zip"), b"").unwrap();
+    std::fs::write(p("trunc.zip"), &arch[..arch.len() / 2]).unwrap();
+    std::fs::create_dir_all(p("dir.zip")).unwrap();
+    write_zip(&p("nested.zip"), &[("inner.zip", arch.clone()), ("x/y.dlt", a.clone()), ("data", a.clone())]);
+    for n in ["old.zip", "UPPER.ZIP", "link.zip", "data.zip", "emptyarch.zip", "zero.zip", "trunc.zip", "dir.zip", "nested.zip"] {
+        bases.push((s(n), "archive"));
+    }
+    for n in ["arch.zip", "bad.zip", "mv.zip.001", "mv.zip.002", "hostile.zip", "nofile.zip", "a.dlt", "sub"] {
+        bases.push((dir.join(n).to_str().unwrap().to_string(), if n.contains(".zip") { "archive" } else { "classic" }));
+    }
+    bases
+}
+
 struct Files {
     dir: PathBuf,
+    /// base paths of the environment with their class
+    env: Vec<(String, &'static str)>,
 }
 impl Files {
-    fn create(dir: &Path) -> Files {
+    fn create(dir: &Path, seed: u64) -> Files {
         write_dlt(&dir.join("a.dlt"), 10, 0);
         write_dlt(&dir.join("b.dlt"), 5, 10);
         write_dlt(&dir.join("big.dlt"), 150_000, 0);
@@ -125,12 +289,14 @@ impl Files {
         let az = rd("arch.zip");
         std::fs::write(dir.join("mv.zip.001"), &az[..az.len() / 2]).unwrap();
         std::fs::write(dir.join("mv.zip.002"), &az[az.len() / 2..]).unwrap();
-        Files { dir: dir.to_path_buf() }
+        let env = create_env(dir, seed);
+        Files { dir: dir.to_path_buf(), env }
     }
     /// replaces the @X placeholders of a frame template by paths
     fn subst(&self, s: &str) -> String {
         let p = |n: &str| self.dir.join(n).to_str().unwrap().to_string();
-        s.replace("@BADZIP", &p("bad.zip"))
+        s.replace("@E/", &format!("{}/", p("env")))
+            .replace("@BADZIP", &p("bad.zip"))
             .replace("@ZA", &p("arch.zip"))
             .replace("@ZS", &p("slow.zip"))
             .replace("@ZH", &p("hostile.zip"))
@@ -270,8 +436,260 @@ enum OrcS {
     Stream(Option<(bool, u64, u64, u64, u64, u64, u64)>),
     /// id commands: does process_stream_search_params accept the body
     Id(bool),
-    /// plugin_cmd / fs: 0 bad json, 1 not an object, 2 members missing, 3 good(name); process_fs_cmd ok
+    /// plugin_cmd (and the fs templates before they are sent): 0 bad json, 1 not an object, 2 members missing,
+    /// 3 good(name); for fs templates: is the command expected to be answered ok: (by construction of the template)
     Json(u8, String, bool),
+    /// fs: expected ok:/err: where the template knows it by construction; the oracle inputs read from the
+    /// environment right before the command is sent (None until then)
+    Fs(Option<bool>, Option<Box<FsFacts>>),
+}
+
+/// std::fs::symlink_metadata(path) as the harness sees it
+#[derive(Clone, Debug)]
+enum MetaF {
+    /// kind: 0 dir, 1 file, 2 symlink, 3 other; target (std::fs::metadata of a symlink): 0 dir, 1 file, 2 other, 3 Err;
+    /// times: None = not available, Some(signed nanoseconds relative to the epoch)
+    Ok { kind: u8, target: u8, len: u64, modified: Option<i128>, created: Option<i128> },
+    NotFound,
+    Other,
+}
+/// oracle inputs of one `fs` command: results of the harness' own OS calls and of the trusted archive helpers of
+/// the adlt library (called in-process) for the path named by the command - never taken from the reply
+#[derive(Clone, Debug)]
+struct FsFacts {
+    shape: u8, // 0 bad json, 1 not an object, 2 cmd / path missing or no strings, 3 both strings
+    cmd: u8,   // 0 stat, 1 readDirectory, 2 anything else
+    path: String,
+    meta: MetaF,
+    rd: Result<u64, bool>, // read_dir: Ok(entries with a file name) | Err(is NotFound)
+    split: bool,           // the path has the archive form `..!/..` or `..!`
+    exists: bool,
+    supported: bool,
+    multi: bool,
+    open_ok: bool,
+    list: Option<Vec<String>>,
+    rd_count: u64,
+    ameta: Option<(u8, u64)>,
+    probe_panic: bool,
+}
+impl FsFacts {
+    fn empty(shape: u8) -> FsFacts {
+        FsFacts { shape, cmd: 2, path: String::new(), meta: MetaF::NotFound, rd: Err(true), split: false, exists: false, supported: false, multi: false, open_ok: false, list: None, rd_count: 0, ameta: None, probe_panic: false }
+    }
+    fn coq(&self) -> String {
+        let t = |o: &Option<i128>| match o {
+            None => "tnone".to_string(),
+            Some(x) => format!("(tm {} {})", cbool(*x < 0), x.unsigned_abs()),
+        };
+        let meta = match &self.meta {
+            MetaF::Ok { kind, target, len, modified, created } => format!("(mok {} {} {} {} {})", kind, target, len, t(modified), t(created)),
+            MetaF::NotFound => "mnf".to_string(),
+            MetaF::Other => "mer".to_string(),
+        };
+        let rd = match self.rd {
+            Ok(n) => format!("(RdOk {})", n),
+            Err(true) => "rdn".to_string(),
+            Err(false) => "rde".to_string(),
+        };
+        let list = match &self.list {
+            None => "None".to_string(),
+            Some(l) => format!("(Some {})", clist(&l.iter().map(|x| cstr(x)).collect::<Vec<_>>())),
+        };
+        let am = match self.ameta {
+            None => "None".to_string(),
+            Some((t, s)) => format!("(Some ({}, {}))", t, s),
+        };
+        format!(
+            "(fso {} {} {} {} {} {} {} {} {} {} {} {})",
+            cbool(self.shape == 3), self.cmd, cstr(&self.path), meta, rd, cbool(self.exists), cbool(self.supported), cbool(self.multi), cbool(self.open_ok), list, self.rd_count, am
+        )
+    }
+    /// value classes of the environment this command met (for the coverage list of the evidence)
+    fn tags(&self) -> Vec<String> {
+        let mut t = vec![];
+        if self.shape != 3 {
+            t.push(format!("fsx:body_shape_{}", self.shape));
+            return t;
+        }
+        let c = ["stat", "readdir", "othercmd"][self.cmd as usize];
+        if self.cmd == 2 {
+            t.push("fsx:othercmd".into());
+            return t;
+        }
+        let time_class = |x: &Option<i128>| match x {
+            None => "unavailable",
+            Some(v) if *v < 0 => "before_epoch",
+            Some(0) => "at_epoch",
+            Some(v) if *v >= (1i128 << 33) * 1_000_000_000 => "far_future",
+            Some(_) => "after_epoch",
+        };
+        let mut to_archive = false;
+        if self.cmd == 0 {
+            match &self.meta {
+                MetaF::Ok { kind, target, len, modified, created } => {
+                    t.push(format!("fsx:stat:kind_{}", ["dir", "file", "symlink", "special"][*kind as usize]));
+                    if *kind == 2 {
+                        t.push(format!("fsx:stat:link_target_{}", ["dir", "file", "special", "err"][*target as usize]));
+                    }
+                    t.push(format!("fsx:stat:mtime_{}", time_class(modified)));
+                    t.push(format!("fsx:stat:ctime_{}", time_class(created)));
+                    if *len == 0 {
+                        t.push("fsx:stat:len_zero".into());
+                    }
+                }
+                MetaF::NotFound => to_archive = true,
+                MetaF::Other => t.push("fsx:stat:meta_other_error".into()),
+            }
+        } else {
+            match self.rd {
+                Ok(0) => t.push("fsx:readdir:ok_empty".into()),
+                Ok(_) => t.push("fsx:readdir:ok_entries".into()),
+                Err(true) => to_archive = true,
+                Err(false) => t.push("fsx:readdir:other_error".into()),
+            }
+        }
+        if to_archive {
+            let a = if !self.split {
+                "no_archive_form"
+            } else if !self.exists {
+                "archive_missing"
+            } else if !self.supported {
+                "archive_unsupported_name"
+            } else if !self.multi && !self.open_ok {
+                "archive_open_fails"
+            } else {
+                match &self.list {
+                    None => "archive_corrupt",
+                    Some(l) if l.len() == 1 && l[0] == "data" => "archive_single_data",
+                    Some(l) if l.is_empty() => "archive_empty",
+                    Some(_) if self.cmd == 0 && self.ameta.is_none() => "archive_member_missing",
+                    Some(_) if self.cmd == 0 && self.ameta.map(|x| x.0) == Some(0) => "archive_member_dir",
+                    Some(_) if self.cmd == 0 => "archive_member_file",
+                    Some(_) if self.rd_count == 0 => "archive_list_empty",
+                    Some(_) => "archive_list_entries",
+                }
+            };
+            t.push(format!("fsx:{}:{}", c, a));
+            if self.split && self.multi {
+                t.push("fsx:archive_multi_volume".into());
+            }
+        }
+        if self.probe_panic {
+            t.push("fsx:probe_panic".into());
+        }
+        t
+    }
+}
+/// classes of the environment that a run is expected to reach (reported if not)
+const ALL_FS_CLASSES: &[&str] = &[
+    "fsx:body_shape_0", "fsx:body_shape_1", "fsx:body_shape_2", "fsx:othercmd",
+    "fsx:stat:kind_dir", "fsx:stat:kind_file", "fsx:stat:kind_symlink", "fsx:stat:kind_special",
+    "fsx:stat:link_target_dir", "fsx:stat:link_target_file", "fsx:stat:link_target_err",
+    "fsx:stat:mtime_before_epoch", "fsx:stat:mtime_at_epoch", "fsx:stat:mtime_after_epoch", "fsx:stat:mtime_far_future",
+    "fsx:stat:ctime_after_epoch", "fsx:stat:len_zero", "fsx:stat:meta_other_error",
+    "fsx:readdir:ok_empty", "fsx:readdir:ok_entries", "fsx:readdir:other_error",
+    "fsx:stat:no_archive_form", "fsx:stat:archive_missing", "fsx:stat:archive_unsupported_name", "fsx:stat:archive_open_fails", "fsx:stat:archive_corrupt",
+    "fsx:stat:archive_single_data", "fsx:stat:archive_empty", "fsx:stat:archive_member_missing", "fsx:stat:archive_member_dir", "fsx:stat:archive_member_file",
+    "fsx:readdir:no_archive_form", "fsx:readdir:archive_missing", "fsx:readdir:archive_unsupported_name", "fsx:readdir:archive_open_fails", "fsx:readdir:archive_corrupt",
+    "fsx:readdir:archive_single_data", "fsx:readdir:archive_empty", "fsx:readdir:archive_list_empty", "fsx:readdir:archive_list_entries",
+    "fsx:archive_multi_volume",
+];
+
+/// the `archive!/within` split as fs_cmd_archive does it (first "!/", or a trailing '!')
+fn archive_split_h(p: &str) -> Option<(String, String)> {
+    if let Some((a, b)) = p.split_once("!/") {
+        Some((a.to_string(), b.to_string()))
+    } else if p.ends_with('!') {
+        Some((p[..p.len() - 1].to_string(), String::new()))
+    } else {
+        None
+    }
+}
+
+/// reads the oracle inputs of an `fs` frame from the environment
+fn fs_probe(frame: &str) -> FsFacts {
+    use adlt::utils::unzip;
+    let v = match serde_json::from_str::<Value>(params_of(frame)) {
+        Ok(v) => v,
+        Err(_) => return FsFacts::empty(0),
+    };
+    let obj = match v.as_object() {
+        Some(o) => o,
+        None => return FsFacts::empty(1),
+    };
+    let (cmd, path) = match (obj.get("cmd").and_then(Value::as_str), obj.get("path").and_then(Value::as_str)) {
+        (Some(c), Some(p)) => (c, p),
+        _ => return FsFacts::empty(2),
+    };
+    let mut f = FsFacts::empty(3);
+    f.cmd = match cmd {
+        "stat" => 0,
+        "readDirectory" => 1,
+        _ => 2,
+    };
+    f.path = path.to_string();
+    f.meta = match std::fs::symlink_metadata(path) {
+        Ok(a) => {
+            let ft = a.file_type();
+            let kind = if ft.is_dir() { 0 } else if ft.is_file() { 1 } else if ft.is_symlink() { 2 } else { 3 };
+            let target = if kind == 2 {
+                match std::fs::metadata(path) {
+                    Ok(m) if m.file_type().is_dir() => 0,
+                    Ok(m) if m.file_type().is_file() => 1,
+                    Ok(_) => 2,
+                    Err(_) => 3,
+                }
+            } else {
+                3
+            };
+            MetaF::Ok { kind, target, len: a.len(), modified: a.modified().ok().map(signed_ns), created: a.created().ok().map(signed_ns) }
+        }
+        Err(e) if e.kind() == std::io::ErrorKind::NotFound => MetaF::NotFound,
+        Err(_) => MetaF::Other,
+    };
+    f.rd = match std::fs::read_dir(path) {
+        Ok(entries) => Ok(entries.filter_map(|e| e.ok().and_then(|e| e.path().file_name().map(|_| ()))).count() as u64),
+        Err(e) if e.kind() == std::io::ErrorKind::NotFound => Err(true),
+        Err(_) => Err(false),
+    };
+    if let Some((ap, within)) = archive_split_h(path) {
+        f.split = true;
+        let ap = PathBuf::from(ap);
+        f.exists = ap.exists();
+        f.supported = unzip::archive_is_supported_filename(&ap);
+        f.multi = unzip::is_part_of_multi_volume_archive(&ap);
+        // open_regular_file(&archive_path) of remote.rs: only a regular file (links followed) is opened (a FIFO would
+        // block); only reached (by the code and by the model) for an existing entry with a supported archive name
+        let openable = std::fs::metadata(&ap).map_or(false, |m| m.is_file());
+        f.open_ok = f.exists && f.supported && openable && std::fs::File::open(&ap).is_ok();
+        if f.exists && f.supported && (f.multi || f.open_ok) {
+            let ap2 = ap.clone();
+            let multi = f.multi;
+            let r = catch(move || {
+                let open_regular = |p: PathBuf| -> std::io::Result<std::fs::File> {
+                    if std::fs::metadata(&p)?.is_file() {
+                        std::fs::File::open(&p)
+                    } else {
+                        Err(std::io::Error::new(std::io::ErrorKind::InvalidInput, "not a regular file"))
+                    }
+                };
+                let sources: Vec<std::fs::File> = if multi { unzip::search_dir_for_multi_volume_archive(&ap2).into_iter().flat_map(open_regular).collect() } else { vec![open_regular(ap2.clone()).unwrap()] };
+                let list = unzip::list_archive_contents(adlt::utils::seekablechain::SeekableChain::new(sources)).ok();
+                let rd_count = list.as_ref().map_or(0, |l| unzip::archive_contents_read_dir(l, &within).count() as u64);
+                let ameta = list.as_ref().and_then(|l| unzip::archive_contents_metadata(l, &within).ok()).map(|(t, s)| (if t == "dir" { 0u8 } else { 1u8 }, s as u64));
+                (list, rd_count, ameta)
+            });
+            match r {
+                Ok((l, c, m)) => {
+                    f.list = l;
+                    f.rd_count = c;
+                    f.ameta = m;
+                }
+                Err(_) => f.probe_panic = true,
+            }
+        }
+    }
+    f
 }
 impl OrcS {
     fn json(&self) -> Value {
@@ -283,6 +701,7 @@ impl OrcS {
             OrcS::Stream(Some((o, a, b, p, n, e, k))) => json!({"k": "stream_ok", "one_pass": o, "ws": a, "we": b, "np": p, "nn": n, "ne": e, "fclass": k}),
             OrcS::Id(b) => json!({"k": "id", "search_ok": b}),
             OrcS::Json(s, n, f) => json!({"k": "json", "shape": s, "name": n, "fs_ok": f}),
+            OrcS::Fs(e, f) => json!({"k": "fs", "expect_ok": e, "facts_seen": f.as_ref().map(|f| format!("{:?}", f))}),
         }
     }
     fn from_json(v: &Value) -> OrcS {
@@ -306,6 +725,8 @@ impl OrcS {
             ))),
             "id" => OrcS::Id(v["search_ok"].as_bool().unwrap()),
             "json" => OrcS::Json(v["shape"].as_u64().unwrap() as u8, v["name"].as_str().unwrap().to_string(), v["fs_ok"].as_bool().unwrap()),
+            // the facts are read anew from the (recreated) environment when the command is sent
+            "fs" => OrcS::Fs(v["expect_ok"].as_bool(), None),
             x => panic!("orc kind {}", x),
         }
     }
@@ -334,7 +755,18 @@ impl OrcS {
                     2 => "JMissing".to_string(),
                     _ => format!("(JGood {})", cstr(n)),
                 };
-                format!("(oj {} {})", shape, cbool(*f))
+                let _ = f;
+                format!("(oj {})", shape)
+            }
+            OrcS::Fs(_, facts) => {
+                let f = facts.as_ref().map(|f| (**f).clone()).unwrap_or_else(|| fs_probe(frame));
+                let shape = match f.shape {
+                    0 => "JBad",
+                    1 => "JNotObject",
+                    2 => "JMissing",
+                    _ => "(JGood \"\"%string)",
+                };
+                format!("(ofs {} {})", shape, f.coq())
             }
         }
     }
@@ -364,8 +796,11 @@ fn open_facts(frame: &str) -> (bool, u32, u32) {
                 (false, 1, HUGE_MSGS)
             } else if plain("/dense.dlt") {
                 (false, 1, DENSE_MSGS)
-            } else if let Some(p) = f.find("/arch.zip") {
-                match &f[p + "/arch.zip".len()..] {
+            } else if f.contains("/env/") && (f.ends_with("L.dlt") || f.ends_with("/link_a.dlt") || f.rsplit('/').next().map_or(false, |n| n.starts_with("t_") && n.ends_with(".dlt"))) {
+                // DLT files of the environment (10 messages each): old / future modification times, a link, a long name
+                (false, 1, 10)
+            } else if let Some((p, an)) = ["/arch.zip", "/old.zip", "/link.zip", "/UPPER.ZIP"].iter().find_map(|an| f.find(an).map(|p| (p, *an))) {
+                match &f[p + an.len()..] {
                     "" | "!/**/*" | "!/*" => (true, 3, 18),
                     "!/logs/*.dlt" | "!/logs/*" => (true, 2, 15),
                     "!/**/c.dlt" | "!/deep/x/c.dlt" => (true, 1, 3),
@@ -373,6 +808,12 @@ fn open_facts(frame: &str) -> (bool, u32, u32) {
                     "/logs/a.dlt" | "!/logs/a.dlt" => (true, 1, 10),
                     _ => (true, 0, 0),
                 }
+            } else if f.ends_with("/env/data.zip") {
+                (true, 1, 10)
+            } else if f.ends_with("/env/nested.zip") {
+                (true, 2, 20)
+            } else if f.ends_with("/env/emptyarch.zip") || f.ends_with("/env/zero.zip") || f.ends_with("/env/dir.zip") || f.ends_with("/env/trunc.zip") || f.ends_with("/env/fifo.zip") {
+                (true, 0, 0)
             } else if f.ends_with("/slow.zip") {
                 (true, 4, 600_000)
             } else if f.ends_with("/hostile.zip") {
@@ -473,7 +914,28 @@ fn classify_reply(r: &str) -> Option<O> {
                 Some(leaf3(0, 7, vec![O::L(id)]))
             }
             "plugin_cmd" => Some(leaf3(0, 8, vec![])),
-            "fs" => Some(leaf3(0, 9, vec![])),
+            "fs" => {
+                // the JSON value after `ok: fs:`: a stat object, an {"err":..} object or a list of entries
+                let v: Value = serde_json::from_str(arg).ok()?;
+                if let Some(a) = v.as_array() {
+                    Some(leaf3(0, 9, vec![O::L(2), O::L(a.len() as u128)]))
+                } else if let Some(st) = v.get("stat") {
+                    let ty = match st["type"].as_str()? {
+                        "dir" => 0,
+                        "file" => 1,
+                        "symlink_dir" => 2,
+                        "symlink_file" => 3,
+                        "symlink" => 4,
+                        "unknown" => 5,
+                        _ => 99,
+                    };
+                    Some(leaf3(0, 9, vec![O::L(0), O::L(ty), O::L(st["size"].as_u64()? as u128), O::L(st["mtime"].as_u64()? as u128), O::L(st["ctime"].as_u64()? as u128)]))
+                } else if v.get("err").is_some() {
+                    Some(leaf3(0, 9, vec![O::L(1)]))
+                } else {
+                    None
+                }
+            }
             _ => None,
         };
     }
@@ -620,7 +1082,7 @@ fn state_label(tr: &Tracker) -> String {
 /// commands whose handler iterates over a collection to find a match (plugins by name, streams by id) or builds
 /// one (filters): their reply count is always checked exactly with a sentinel
 fn wants_probe(frame: &str) -> bool {
-    matches!(command_of(frame), "plugin_cmd" | "stop" | "stream_change_window" | "stream_binary_search" | "stream_search" | "stream" | "query")
+    matches!(command_of(frame), "plugin_cmd" | "stop" | "stream_change_window" | "stream_binary_search" | "stream_search" | "stream" | "query" | "fs")
 }
 fn cmd_label(frame: &str) -> &'static str {
     match command_of(frame) {
@@ -787,6 +1249,14 @@ fn oracle_cmd(tr: &Tracker, cmd: &Cmd, reply: &str, cls: &Option<O>, viol: &mut 
                 fail("file_open_between_open_and_close", "plugin_cmd ok without an open file".into());
             }
         }
+        "fs" => {
+            // where the template knows by construction what its path names
+            if let OrcS::Fs(Some(exp), _) = &cmd.orc {
+                if *exp != is_ok {
+                    fail("fs_outcome", format!("expected {} for what the path names, got {:?}", if *exp { "ok:" } else { "err:" }, reply));
+                }
+            }
+        }
         _ => {}
     }
 }
@@ -869,6 +1339,12 @@ const OPEN_OK: &[(&str, u8, bool, &[(&str, bool)])] = &[
     (r#"{"files":["@A"],"plugins":[{"name":"Nope"},{"name":"Rewrite","rewrites":[],"enabled":false}]}"#, 0, false, &[]),
     (r#"{"files":["@NOFILE","@A","@EMPTY"]}"#, 0, false, &[]),
     (r#" {"files" : ["@A"] , "unknown":1}"#, 0, false, &[]),
+    // what the file names refer to: modification times before / at / far after the epoch, links, entries that cannot be read
+    (r#"{"files":["@E/t_m1h.dlt"]}"#, 0, false, &[]),
+    (r#"{"files":["@E/link_a.dlt","@E/t_epoch.dlt"],"sort":true}"#, 0, true, &[]),
+    (r#"{"files":["@E/dangling","@E/t_m1ns.dlt","@E/loop","@E/olddir","@E/sock","@E/plain.txt/x"]}"#, 0, false, &[]),
+    (r#"{"files":["@E/t_max34.dlt","@B","@E/t_min32.dlt"]}"#, 0, false, &[]),
+    (r#"{"files":["@E/fifo","@A","@E/fifo.dlt"]}"#, 0, false, &[]),
 ];
 // the archive path of open: answered ok at once, no file stream until the background extraction was taken over,
 // none at all if nothing usable is extracted (open_facts knows what each of them yields)
@@ -893,6 +1369,16 @@ const OPEN_ARCHIVE: &[(&str, u8, bool, &[(&str, bool)])] = &[
     (r#"{"files":["@ZH"]}"#, 0, false, &[]),
     (r#"{"files":["@ZS"]}"#, 0, false, &[]),
     (r#"{"files":["@ZS"],"sort":true}"#, 0, true, &[]),
+    (r#"{"files":["@E/old.zip"]}"#, 0, false, &[]),
+    (r#"{"files":["@E/old.zip!/logs/*.dlt"]}"#, 0, false, &[]),
+    (r#"{"files":["@E/link.zip"]}"#, 0, false, &[]),
+    (r#"{"files":["@E/UPPER.ZIP"]}"#, 0, false, &[]),
+    (r#"{"files":["@E/data.zip"]}"#, 0, false, &[]),
+    (r#"{"files":["@E/nested.zip"]}"#, 0, false, &[]),
+    (r#"{"files":["@E/emptyarch.zip"]}"#, 0, false, &[]),
+    (r#"{"files":["@E/zero.zip"]}"#, 0, false, &[]),
+    (r#"{"files":["@E/dir.zip","@E/trunc.zip"]}"#, 0, false, &[]),
+    (r#"{"files":["@E/fifo.zip"]}"#, 0, false, &[]),
 ];
 const OPEN_BIG: &[(&str, u8, bool, &[(&str, bool)])] = &[
     (r#"{"files":["@BIG"]}"#, 0, false, &[]),
@@ -925,6 +1411,15 @@ const OPEN_ERR: &[&str] = &[
     r#"{"files":["@DIR!/x.dlt"]}"#,
     r#"{"files":["@ZA!/logs/a.dlt"],"collect":"bla"}"#,
     r#"{"files":["@ZA",1]}"#,
+    r#"{"files":["@E/dangling"]}"#,
+    r#"{"files":["@E/loop","@E/loop_a"]}"#,
+    r#"{"files":["@E/olddir"]}"#,
+    r#"{"files":["@E/sock"]}"#,
+    r#"{"files":["@E/plain.txt","@E/empty.txt","@E/noread.txt"]}"#,
+    r#"{"files":["@E/plain.txt/x","@E/nonutf8","@E/noperm"]}"#,
+    r#"{"files":["@E/a\u0000b"]}"#,
+    r#"{"files":["@E/fifo"]}"#,
+    r#"{"files":["@E/fifo.dlt","@E/fifo","@E/sock"]}"#,
 ];
 // (body, one_pass, start, end, pos, neg, event, filter class)
 const STREAM_OK: &[(&str, bool, u64, u64, u64, u64, u64, u64)] = &[
@@ -1048,6 +1543,13 @@ const PLUGIN_CFGS: &[(&str, Option<(&str, bool)>)] = &[
     (r#"{"name":"\u00fcnknown \"x\""}"#, None),
     (r#"{"name":5}"#, None),
     (r#"{}"#, None),
+    // directories named by a plugin config: old, with names that are not UTF-8, a link loop, a file, missing, inside an archive
+    (r#"{"name":"CAN","fibexDir":"@E/olddir"}"#, Some(("CAN", false))),
+    (r#"{"name":"SomeIp","fibexDir":"@E/nonutf8"}"#, Some(("SomeIp", false))),
+    (r#"{"name":"SomeIp","fibexDir":"@E/loop"}"#, None),
+    (r#"{"name":"SomeIp","fibexDir":"@E/plain.txt"}"#, None),
+    (r#"{"name":"NonVerbose","fibexDir":"@E/nothing"}"#, None),
+    (r#"{"name":"SomeIp","fibexDir":"@E/old.zip!/logs"}"#, None),
 ];
 const PLUGIN_NAMES: &[&str] = &["FileTransfer", "Rewrite", "SomeIp", "NonVerbose", "CAN", "Muniic", "Export", "Nope", "filetransfer", "", "File Transfer", "\\u00fcnknown"];
 
@@ -1059,6 +1561,7 @@ fn compose_open(rng: &mut Rng, files: &Files) -> (String, OrcS) {
     let fl: &[&str] = *rng.pick(&[
         &["@A"][..], &["@A"], &["@A"], &["@B"], &["@A", "@B"], &["@B", "@A"], &["@A", "@A"], &["@A", "@A", "@B", "@B"], &["@B", "@A", "@C"],
         &["@NOFILE", "@A"], &["@EMPTY", "@B", "@DIR"], &["@NOFILE"], &["@EMPTY", "@DIR"], &[],
+        &["@E/t_m1h.dlt"], &["@E/t_m1ns.dlt", "@E/link_a.dlt"], &["@E/dangling", "@E/t_epoch.dlt", "@E/loop"], &["@E/olddir", "@E/sock"], &["@E/fifo.dlt"], &["@E/fifo", "@B"], &["@E/t_r0.dlt", "@E/t_r1.dlt", "@E/t_y2400.dlt"],
     ]);
     match rng.below(14) {
         0 => {
@@ -1328,7 +1831,7 @@ fn compose_plugin_cmd(rng: &mut Rng, tr: &Tracker, files: &Files) -> (String, Or
         _ => keys.push(format!(r#""cmd":"{}""#, rng.pick(&["save", "save", "foo", "", "SAVE", "s\\u00e4ve"]))),
     }
     if rng.chance(1, 2) {
-        keys.push(format!(r#""params":{}"#, rng.pick(&[r#"{"saveAs":"@NOFILE"}"#, r#"{"saveAs":3}"#, "{}", "3", "null", r#"{"saveAs":"@DIR"}"#])));
+        keys.push(format!(r#""params":{}"#, rng.pick(&[r#"{"saveAs":"@NOFILE"}"#, r#"{"saveAs":3}"#, "{}", "3", "null", r#"{"saveAs":"@DIR"}"#, r#"{"saveAs":"@E/olddir"}"#, r#"{"saveAs":"@E/loop"}"#, r#"{"saveAs":"@E/nothing/x"}"#, r#"{"saveAs":"@E/plain.txt/x"}"#])));
     }
     if rng.chance(1, 2) {
         keys.push(format!(r#""cmdCtx":{}"#, rng.pick(&[r#"{"save":{"idx":0}}"#, r#"{"save":{"idx":-1}}"#, r#"{"save":3}"#, "{}", "[]", r#"{"save":{"idx":18446744073709551615}}"#])));
@@ -1339,6 +1842,55 @@ fn compose_plugin_cmd(rng: &mut Rng, tr: &Tracker, files: &Files) -> (String, Or
     }
     let n = if shape == 3 { serde_json::from_str::<String>(&format!("\"{}\"", name)).unwrap_or(name.clone()) } else { String::new() };
     (files.subst(&format!("plugin_cmd {{{}}}", keys.join(","))), OrcS::Json(shape, n, false))
+}
+
+/// `fs {"cmd":..,"path":..}` with the path properly escaped
+fn fs_frame(cmd: &str, path: &str) -> String {
+    format!("fs {{\"cmd\":{},\"path\":{}}}", serde_json::to_string(cmd).unwrap(), serde_json::to_string(path).unwrap())
+}
+/// what follows a base path: the entry itself, below it, and the archive forms
+const FS_FORMS: &[&str] = &["", "/", "/.", "/x", "/..", "!", "!/", "!/x", "!/logs", "!/logs/a.dlt", "!/data", "!/x!/y", "!!", "!/!", "/!"];
+const FS_CMDS: &[&str] = &["stat", "stat", "stat", "stat", "readDirectory", "readDirectory", "readDirectory", "read", "Stat", "", "readdirectory", "delete"];
+
+/// by construction of the environment: is `fs <cmd>` on the bare base path of this class answered ok: ?
+fn fs_expect(cmd: &str, class: &str, form: &str) -> Option<bool> {
+    if cmd != "stat" && cmd != "readDirectory" {
+        return Some(false);
+    }
+    if !form.is_empty() {
+        return None;
+    }
+    match class {
+        "missing" | "missing_relative" | "text_empty" | "below_dangling" => Some(false),
+        // the link itself can be looked at, following it ends at nothing (not found, and the text has no archive form)
+        "symlink_dangling" => Some(cmd == "stat"),
+        "archive" | "classic" => None,
+        // the entry exists (ok: with its stat / listing, or ok: with an inner error for readDirectory of a non-directory),
+        // or the path cannot be resolved for another reason than "not found" (ok: with an inner error)
+        _ => Some(true),
+    }
+}
+
+/// an `fs` command against the value classes of the environment: base x form x cmd x body variant
+fn compose_fs(rng: &mut Rng, files: &Files) -> (String, OrcS) {
+    let (base, class) = rng.pick(&files.env).clone();
+    let form = if rng.chance(1, 2) { "" } else { *rng.pick(FS_FORMS) };
+    let cmd = *rng.pick(FS_CMDS);
+    let path = format!("{}{}", base, form);
+    let pj = serde_json::to_string(&path).unwrap();
+    let cj = serde_json::to_string(cmd).unwrap();
+    let frame = match rng.below(12) {
+        0 => format!("fs {{\"path\":{},\"cmd\":{}}}", pj, cj),
+        1 => format!("fs {{\"cmd\":{},\"path\":{},\"x\":[1,{{}}],\"cmd2\":\"stat\"}}", cj, pj),
+        2 => format!("fs  {{ \"cmd\" : {} , \"path\" : {} }}", cj, pj),
+        3 => format!("fs {{\"cmd\":{},\"path\":{}}}", cj, rng.pick(&["1", "null", "[]", "{}", "true"])),
+        4 => format!("fs {{\"cmd\":{},\"path\":{}}}", rng.pick(&["1", "null", "[\"stat\"]"]), pj),
+        5 => format!("fs {{\"Cmd\":{},\"Path\":{}}}", cj, pj),
+        6 => format!("fs [{},{}]", cj, pj),
+        _ => fs_frame(cmd, &path),
+    };
+    let expect = if frame == fs_frame(cmd, &path) { fs_expect(cmd, class, form) } else { None };
+    (frame, OrcS::Fs(expect, None))
 }
 
 fn open_ok_cmd(rng: &mut Rng, set: &[(&str, u8, bool, &[(&str, bool)])], files: &Files) -> (String, OrcS) {
@@ -1473,7 +2025,8 @@ fn gen_cmd(rng: &mut Rng, cfg: &GenCfg, tr: &Tracker, files: &Files, pos: usize)
             let body = files.subst(t.0);
             (if body.is_empty() { "plugin_cmd".to_string() } else { format!("plugin_cmd {}", body) }, OrcS::Json(t.1, t.2.to_string(), false))
         }
-        91..=95 => {
+        91..=96 if rng.chance(2, 3) => compose_fs(rng, files),
+        91..=96 => {
             let t = rng.pick(FS_BODIES);
             let body = files.subst(t.0);
             (if body.is_empty() { "fs".to_string() } else { format!("fs {}", body) }, OrcS::Json(t.1, String::new(), t.2))
@@ -1572,6 +2125,16 @@ fn run_session(plan: Plan, scratch: &Path, tag: &str) -> SessionResult {
             }
             _ => unreachable!(),
         };
+        let mut cmd = cmd;
+        if command_of(&cmd.frame) == "fs" {
+            // the oracle inputs of the command: what its path names right now
+            let expect = match &cmd.orc {
+                OrcS::Json(_, _, f) => Some(*f),
+                OrcS::Fs(e, _) => *e,
+                _ => None,
+            };
+            cmd.orc = OrcS::Fs(expect, Some(Box::new(fs_probe(&cmd.frame))));
+        }
         if dead.is_some() {
             res.results.push(CmdResult { extra: vec![], state: "dead".into(), pre: vec![], nmsgs: tr.nmsgs, reply: None, reply_ms: 0, dead: dead.clone() });
             res.cmds.push(cmd);
@@ -1762,6 +2325,9 @@ fn record(sink: &mut Sink, res: &SessionResult, kind: &str) {
         };
         if r.reply.is_some() {
             tags.push(format!("sx:{}:{}", r.state, cmd_label(&c.frame)));
+            if let OrcS::Fs(_, Some(f)) = &c.orc {
+                tags.extend(f.tags());
+            }
         }
         if r.pre.iter().any(|e| matches!(e, Ev::Extracted(_))) {
             tags.push("event_extracted".into());
@@ -1872,6 +2438,26 @@ fn corpus(files: &Files) -> Vec<(&'static str, Vec<Cmd>)> {
                     (0, r#"fs {"cmd":"readDirectory","path":"@BADZIP!/"}"#, OrcS::Json(3, String::new(), false)),
                     (0, r#"fs {"cmd":"stat","path":"@BADZIP!/x"}"#, OrcS::Json(3, String::new(), false)),
                     (0, r#"fs {"cmd":"stat","path":"@BADZIP!"}"#, OrcS::Json(3, String::new(), false)),
+                    (0, "close", OrcS::None),
+                ],
+                files,
+            ),
+        ),
+        (
+            "fixed_fifo_blocks_connection",
+            fixed(
+                &[
+                    (0, r#"open {"files":["@E/fifo"]}"#, OrcS::Open(None)),
+                    (0, r#"fs {"cmd":"stat","path":"@E/fifo.zip!/x"}"#, OrcS::Fs(Some(false), None)),
+                    (0, r#"fs {"cmd":"readDirectory","path":"@E/fifo.zip!"}"#, OrcS::Fs(Some(false), None)),
+                    (0, r#"fs {"cmd":"stat","path":"@E/fifo.zip.001!/x"}"#, OrcS::Fs(None, None)),
+                    (0, r#"fs {"cmd":"stat","path":"@E/fifo.dlt"}"#, OrcS::Fs(Some(true), None)),
+                    (0, r#"open {"files":["@E/fifo.dlt","@A"]}"#, open_a.clone()),
+                    (0, r#"fs {"cmd":"stat","path":"@E/fifo.zip!/x"}"#, OrcS::Fs(Some(false), None)),
+                    (0, "close", OrcS::None),
+                    (0, r#"open {"files":["@E/fifo.zip"]}"#, open_a.clone()),
+                    (100, r#"open {"files":["@E/fifo"]}"#, open_a.clone()),
+                    (0, "close", OrcS::None),
                     (0, "close", OrcS::None),
                 ],
                 files,
@@ -2070,6 +2656,8 @@ impl B {
 fn sweep_cmds(b: &mut B, mode: u8) {
     b.c(0, "sweep_unknown_command x", OrcS::None);
     b.c(0, r#"fs {"cmd":"stat","path":"@DIR"}"#, OrcS::Json(3, String::new(), true));
+    b.c(0, r#"fs {"cmd":"stat","path":"@E/t_m1s.dlt"}"#, OrcS::Fs(Some(true), None));
+    b.c(0, r#"fs {"cmd":"readDirectory","path":"@E/old.zip!/logs"}"#, OrcS::Fs(Some(true), None));
     b.c(0, r#"plugin_cmd {"name":"nobody","cmd":"x"}"#, OrcS::Json(3, "nobody".into(), false));
     b.c(0, "stop 99", OrcS::Id(false));
     b.c(0, "stream_change_window 99 1,2", OrcS::Id(false));
@@ -2231,7 +2819,7 @@ fn state_sweeps(files: &Files) -> Vec<(&'static str, Vec<Cmd>)> {
                     b.c(0, &format!("stream_search {} {{}}", a), OrcS::Id(true));
                 }
                 10 => b.c(0, r#"plugin_cmd {"name":"nobody","cmd":"x"}"#, OrcS::Json(3, "nobody".into(), false)),
-                11 => b.c(0, r#"fs {"cmd":"stat","path":"@DIR"}"#, OrcS::Json(3, String::new(), true)),
+                11 => b.c(0, r#"fs {"cmd":"stat","path":"@E/olddir"}"#, OrcS::Fs(Some(true), None)),
                 _ => b.c(0, "sweep_unknown_command x", OrcS::None),
             }
             b.c(0, "close", OrcS::None);
@@ -2269,6 +2857,55 @@ fn plugin_matrix(files: &Files) -> Vec<(&'static str, Vec<Cmd>)> {
         v.push(Cmd { sleep_ms: 0, wait_lc: 0, probe: true, frame: "close".into(), orc: OrcS::None });
     }
     let names = ["plugin_matrix_0", "plugin_matrix_1", "plugin_matrix_2"];
+    sessions.into_iter().enumerate().map(|(i, v)| (names[i], v)).collect()
+}
+
+/// every value class of the environment x stat / readDirectory (always run, 3 sessions: nothing open, a file open,
+/// an archive context open): the bare entry, below it, the archive forms; a sentinel behind every command
+fn fs_env_matrix(files: &Files) -> Vec<(&'static str, Vec<Cmd>)> {
+    let mut all: Vec<Cmd> = vec![];
+    let mk = |cmd: &str, base: &str, class: &str, form: &str| -> Cmd {
+        let path = format!("{}{}", base, form);
+        Cmd { sleep_ms: 0, wait_lc: 0, probe: true, frame: fs_frame(cmd, &path), orc: OrcS::Fs(fs_expect(cmd, class, form), None) }
+    };
+    for (k, (base, class)) in files.env.iter().enumerate() {
+        all.push(mk("stat", base, class, ""));
+        all.push(mk("readDirectory", base, class, ""));
+        if *class == "archive" {
+            for form in FS_FORMS.iter().skip(1) {
+                all.push(mk("stat", base, class, form));
+                all.push(mk("readDirectory", base, class, form));
+            }
+        } else if base.len() < 1000 {
+            // two of the forms per base, rotating; every 5th with a command word that is none
+            let f1 = FS_FORMS[1 + k % (FS_FORMS.len() - 1)];
+            let f2 = FS_FORMS[1 + (k * 7 + 3) % (FS_FORMS.len() - 1)];
+            all.push(mk("stat", base, class, f1));
+            all.push(mk("readDirectory", base, class, f2));
+            if k % 5 == 0 {
+                all.push(mk(FS_CMDS[7 + k / 5 % 5], base, class, ""));
+            }
+        }
+    }
+    // bodies that do not get as far as the path
+    for b in ["fs", "fs ", "fs {", "fs []", "fs 7", "fs null", "fs {}", r#"fs {"cmd":"stat"}"#, r#"fs {"path":"/"}"#, r#"fs {"cmd":1,"path":"x"}"#, r#"fs {"cmd":"stat","path":null}"#] {
+        all.push(Cmd { sleep_ms: 0, wait_lc: 0, probe: true, frame: b.to_string(), orc: OrcS::Fs(Some(false), None) });
+    }
+    let names = ["fs_env_closed", "fs_env_file_open", "fs_env_archive_open"];
+    let mut sessions: Vec<Vec<Cmd>> = vec![vec![], vec![], vec![]];
+    let open = |f: &str, probe: bool| Cmd { sleep_ms: 0, wait_lc: 0, probe, frame: files.subst(f), orc: OrcS::Open(Some((0, false, vec![]))) };
+    sessions[1].push(open(r#"open {"files":["@E/t_m1h.dlt","@E/link_a.dlt"]}"#, true));
+    sessions[2].push(open(r#"open {"files":["@E/old.zip"]}"#, false));
+    for (k, c) in all.into_iter().enumerate() {
+        sessions[k % 3].push(c);
+    }
+    for (i, v) in sessions.iter_mut().enumerate() {
+        v.push(Cmd { sleep_ms: 0, wait_lc: 0, probe: true, frame: "close".into(), orc: OrcS::None });
+        if i > 0 {
+            v.push(open(r#"open {"files":["@E/t_m1ns.dlt"]}"#, true));
+            v.push(Cmd { sleep_ms: 0, wait_lc: 0, probe: true, frame: "close".into(), orc: OrcS::None });
+        }
+    }
     sessions.into_iter().enumerate().map(|(i, v)| (names[i], v)).collect()
 }
 
@@ -2317,7 +2954,7 @@ fn main() {
     let mut sink = Sink::new("C15", &a.out);
     sink.shard_size = 12;
     let scratch = tempfile::tempdir().unwrap();
-    let files = Files::create(scratch.path());
+    let files = Files::create(scratch.path(), a.seed);
     let _ = SCRATCH.set(scratch.path().to_str().unwrap().to_string());
 
     if let Some(p) = &a.replay {
@@ -2359,6 +2996,9 @@ fn main() {
             plans.push((name.to_string(), Plan::Fixed(cmds)));
         }
         for (name, cmds) in plugin_matrix(&files) {
+            plans.push((name.to_string(), Plan::Fixed(cmds)));
+        }
+        for (name, cmds) in fs_env_matrix(&files) {
             plans.push((name.to_string(), Plan::Fixed(cmds)));
         }
     }
@@ -2425,6 +3065,23 @@ fn main() {
             eprintln!("c15: state x command pairs not reached in this run: {:?}", missing);
         }
     }
+    // value classes of the environment met by the fs commands
+    {
+        let mut seen: std::collections::BTreeSet<String> = Default::default();
+        for (_, res) in &results {
+            for (c, r) in res.cmds.iter().zip(res.results.iter()) {
+                if let (OrcS::Fs(_, Some(f)), true) = (&c.orc, r.reply.is_some()) {
+                    seen.extend(f.tags());
+                }
+            }
+        }
+        let missing: Vec<&str> = ALL_FS_CLASSES.iter().filter(|c| !seen.contains(**c)).cloned().collect();
+        sink.extra_stats.insert("fs_env_classes_reached".into(), json!(seen.len()));
+        sink.extra_stats.insert("fs_env_classes_missing".into(), json!(missing));
+        if !missing.is_empty() && a.tier != "search" {
+            eprintln!("c15: value classes of the environment not reached in this run (file system / platform): {:?}", missing);
+        }
+    }
     sink.extra_stats.insert("sessions".into(), json!(results.len()));
     sink.extra_stats.insert("connect_failed".into(), json!(connect_failed));
     sink.extra_stats.insert("commands".into(), json!(results.iter().map(|r| r.1.cmds.len()).sum::<usize>()));
@@ -2466,7 +3123,7 @@ fn rewrite_paths(frame: &str, files: &Files) -> String {
 // ---------------------------------------------------------------- exploration mode (development aid)
 fn explore(script_path: &str) {
     let dir = tempfile::tempdir().unwrap();
-    let files = Files::create(dir.path());
+    let files = Files::create(dir.path(), 1);
     let mut srv = Server::start(dir.path(), "x");
     let mut ws = srv.connect().expect("connect");
     let script = std::fs::read_to_string(script_path).unwrap();
